@@ -79,6 +79,8 @@ struct WriteBatch { buffer: Vec<u8>, setsum: Setsum }
 //@ >>
 //@ end
 // an entry as it is logged, and the bytes the derive-generated codec writes for it (prototk: C15; uninterpreted here)
+//@ extract sst/src/lib.rs | struct KeyValueRef
+//@ end
 enum Item { Put { key: Seq<u8>, ts: u64, val: Seq<u8> }, Del { key: Seq<u8>, ts: u64 } }
 uninterp spec fn entry_bytes(i: Item) -> Seq<u8>;
 //@ extract sst/src/lib.rs | struct KeyValuePut
@@ -163,6 +165,22 @@ impl WriteBatch {
         r is Ok <==> key@.len() <= 16384 && old(self).buffer@.len() + entry_bytes(Item::Del { key: key@, ts: timestamp }).len() <= 1048576,
         r is Ok ==> final(self).buffer@ == old(self).buffer@ + entry_bytes(Item::Del { key: key@, ts: timestamp })
             && final(self).setsum.items() == old(self).setsum.items().push(Item::Del { key: key@, ts: timestamp }),
+        r is Err ==> final(self).buffer@ == old(self).buffer@,
+//@ >>
+//@ end
+
+    // insert: a pair with a value is a put of exactly that value (the empty value included), a pair without one a tombstone
+//@ extract sst/src/log.rs | impl WriteBatch :: fn insert
+//@ ret r
+//@ pre <<
+        old(self).buffer@.len() <= 1048576,
+//@ >>
+//@ post <<
+        kvr.value is Some ==> (r is Ok <==> kvr.key@.len() <= 16384 && kvr.value->Some_0@.len() <= 32768 && old(self).buffer@.len() + entry_bytes(Item::Put { key: kvr.key@, ts: kvr.timestamp, val: kvr.value->Some_0@ }).len() <= 1048576),
+        kvr.value is Some && r is Ok ==> final(self).buffer@ == old(self).buffer@ + entry_bytes(Item::Put { key: kvr.key@, ts: kvr.timestamp, val: kvr.value->Some_0@ })
+            && final(self).setsum.items() == old(self).setsum.items().push(Item::Put { key: kvr.key@, ts: kvr.timestamp, val: kvr.value->Some_0@ }),
+        kvr.value is None && r is Ok ==> final(self).buffer@ == old(self).buffer@ + entry_bytes(Item::Del { key: kvr.key@, ts: kvr.timestamp })
+            && final(self).setsum.items() == old(self).setsum.items().push(Item::Del { key: kvr.key@, ts: kvr.timestamp }),
         r is Err ==> final(self).buffer@ == old(self).buffer@,
 //@ >>
 //@ end
@@ -326,7 +344,7 @@ impl ConcurrentLogBuilder {
 //@ end
 }
 
-//@ min-verified 16
+//@ min-verified 17
 } // verus!
 // `Result::expect` wants E: Debug; the formatting itself is never interpreted
 impl std::fmt::Debug for SError { fn fmt(&self, _f: &mut std::fmt::Formatter<'_>) -> std::fmt::Result { Ok(()) } }
